@@ -213,9 +213,13 @@ impl Prop for C02 {
                 #[allow(unreachable_code)]
                 SetSpec::Big(BigSet { n, raw, runs, edges, first, last })
             });
+        // exactly one or two values in a universe within a factor 1.5 of 2^64: the low width is at its maximum (63)
+        let lone = (prop_oneof![Just(usize::MAX), (12usize << 60)..usize::MAX], proptest::collection::vec(any::<u64>(), 1..3))
+            .prop_map(|(n, raw)| SetSpec::Big(BigSet { n, raw, runs: vec![], edges: vec![], first: false, last: false }));
         let set = prop_oneof![
-            5 => bits_spec(max_bits).prop_map(SetSpec::Bits),
-            7 => big,
+            10 => bits_spec(max_bits).prop_map(SetSpec::Bits),
+            14 => big,
+            1 => lone,
         ];
         (set, 0u8..NUM_ROUTES, proptest::collection::vec(any::<u64>(), 0..48)).prop_map(|(set, route, extra)| Case { set, route, extra }).boxed()
     }
